@@ -18,100 +18,7 @@ use adblock::request::Request;
 use implrun::*;
 use serde_json::{json, Value};
 
-// ------------------------------------------------------------------ reference ABP matcher (L0)
-#[derive(Clone, Copy, PartialEq, Debug)]
-enum T {
-    L(u8),
-    Star,
-    Sep,
-}
-fn is_sep(b: u8) -> bool {
-    !(b.is_ascii_alphanumeric() || b == b'_' || b == b'.' || b == b'%' || b == b'-')
-}
-/// `p` matches a prefix of `s` (the whole of `s` if `to_end`)
-fn m(p: &[T], s: &[u8], to_end: bool) -> bool {
-    match p.first() {
-        None => !to_end || s.is_empty(),
-        Some(T::L(c)) => !s.is_empty() && s[0] == *c && m(&p[1..], &s[1..], to_end),
-        Some(T::Sep) => (!s.is_empty() && is_sep(s[0]) && m(&p[1..], &s[1..], to_end)) || (p.len() == 1 && s.is_empty()),
-        Some(T::Star) => (0..=s.len()).any(|i| m(&p[1..], &s[i..], to_end)),
-    }
-}
-fn toks(b: &str) -> Vec<T> {
-    b.bytes()
-        .map(|c| match c {
-            b'*' => T::Star,
-            b'^' => T::Sep,
-            c => T::L(c.to_ascii_lowercase()),
-        })
-        .collect()
-}
-fn search(p: &[T], s: &[u8], la: bool, ra: bool) -> bool {
-    if la {
-        m(p, s, ra)
-    } else {
-        (0..=s.len()).any(|i| m(p, &s[i..], ra))
-    }
-}
-struct Split<'a> {
-    left: u8, // 0 none, 1 '|', 2 '||'
-    right: bool,
-    body: &'a str,
-}
-fn split(rule: &str) -> Split {
-    let mut s = rule;
-    if let Some(x) = s.strip_prefix("@@") {
-        s = x;
-    }
-    let (left, rest) = if let Some(x) = s.strip_prefix("||") {
-        (2, x)
-    } else if let Some(x) = s.strip_prefix('|') {
-        (1, x)
-    } else {
-        (0, s)
-    };
-    let (right, body) = if !rest.is_empty() && rest.ends_with('|') { (true, &rest[..rest.len() - 1]) } else { (false, rest) };
-    Split { left, right, body }
-}
-fn host_cut(body: &str) -> usize {
-    body.find(|c| c == '/' || c == '^' || c == '*').unwrap_or(body.len())
-}
-/// ABP semantics of an option-free rule on (lower-cased url, host, host offset). None: no host.
-fn reference(rule: &str, url_lc: &[u8], host: &[u8], hs: usize) -> Option<bool> {
-    let sp = split(rule);
-    match sp.left {
-        0 => Some(search(&toks(sp.body), url_lc, false, sp.right)),
-        1 => Some(search(&toks(sp.body), url_lc, true, sp.right)),
-        _ => {
-            let cut = host_cut(sp.body);
-            let (h, rest) = (&sp.body[..cut], &sp.body[cut..]);
-            let h = h.to_ascii_lowercase();
-            let h = h.trim_start_matches("www.");
-            if h.is_empty() {
-                return None;
-            }
-            let hb = h.as_bytes();
-            let p = toks(rest);
-            let wildcard = rest.starts_with('*');
-            for o in 0..host.len() {
-                if !(o == 0 || host[o - 1] == b'.' || hb[0] == b'.') {
-                    continue;
-                }
-                if !host[o..].starts_with(hb) {
-                    continue;
-                }
-                let e = o + hb.len();
-                if !(wildcard || hb[hb.len() - 1] == b'.' || e == host.len() || host[e] == b'.') {
-                    continue;
-                }
-                if m(&p, &url_lc[hs + e..], sp.right) {
-                    return Some(true);
-                }
-            }
-            Some(false)
-        }
-    }
-}
+use implrun::refmatch::*;
 fn is_scheme_pattern(p: &str) -> bool {
     matches!(p, "ws://" | "http://" | "https://" | "http*://")
 }
@@ -289,18 +196,6 @@ struct Eval {
     regex_text: Option<String>,
     regex_ok: bool,
     regex_lens: Vec<usize>,
-}
-/// offset of the host in the URL: after "://" and the credentials (independent of the crate's
-/// get_url_after_anchor: the authority ends at the first '/', '?' or '#')
-fn host_start(req: &Request) -> Option<usize> {
-    let a = req.url.find("://")? + 3;
-    let end = req.url[a..].find(|c| c == '/' || c == '?' || c == '#').map(|i| a + i).unwrap_or(req.url.len());
-    let i = req.url[a..end].rfind('@').map(|k| a + k + 1).unwrap_or(a);
-    if req.url[i..].starts_with(req.hostname.as_str()) && !req.hostname.is_empty() {
-        Some(i)
-    } else {
-        None
-    }
 }
 fn eval(rule: &str, url: &str) -> Result<Eval, String> {
     let f = NetworkFilter::parse(rule, true, Default::default()).map_err(|e| format!("parse:{:?}", e))?;
